@@ -213,7 +213,7 @@ def write_replay(prop, spec):
     return path
 
 
-def run_replays(specs, timeout=600):
+def run_replays(specs, timeout=600, env_extra=None):
     """Run replay specs against the unpatched, compiled pyins in a clean subprocess.
     Returns list of result dicts {violated: bool, detail: ..., error: str|None}."""
     if not specs:
@@ -222,6 +222,7 @@ def run_replays(specs, timeout=600):
     env.pop('NUMBA_DISABLE_JIT', None)
     env['PYTHONPATH'] = REPO + os.pathsep + VERIF
     env['PYTHONWARNINGS'] = 'ignore'
+    env.update(env_extra or {})
     p = subprocess.run([PY if os.path.exists(PY) else sys.executable, '-m', 'pvf.replay', '--batch'],
                        input=json.dumps(specs, default=str), capture_output=True, text=True,
                        env=env, cwd=VERIF, timeout=timeout)
